@@ -439,8 +439,9 @@ func (d *vdialer) DialContext(ctx context.Context) (*BaseClient, error) {
 	if gate == nil && d.holdFrom > 0 && k >= d.holdFrom {
 		gate = d.holdGate
 	}
-	d.mu.Unlock()
+	// logged before the attempt counter becomes visible to anybody waiting for "attempt k is being dialled"
 	ev.SeqCall = d.b.log.add(k, "DIAL", nil, "")
+	d.mu.Unlock()
 	finish := func(err error) {
 		ev.TRet, ev.Err = time.Now(), err
 		d.mu.Lock()
